@@ -48,15 +48,30 @@ RULE = ("cohorts of 1..8 coverage-file pairs written to a temp dir (sex mix, per
         "keeps the corrections off; the corrections-on cohorts with no --no-* flag; the flat reference as "
         "`reference -t targets.bed [-a antitargets.bed] [-y] [-f fa] -o out`; the table handed to the writer is judged "
         "and the written file must read back equal to it within 1e-5 relative. non-trivial = >= 2 samples or a "
-        "sex chromosome present; distinct by hash")
+        "sex chromosome present; distinct by hash.  round 4, tag corr-* (20 / 80 cohorts): general cohorts (noise, sex mix, "
+        "depth scales, sexes given / inferred, with / without / empty antitargets, PAR genomes, conflicts) through "
+        "do_reference with the bias corrections ON against the model that composes C04's center_by_window into the "
+        "reference (exact oracle): a genome FASTA (gc for both blocks, rmask for the antitargets; sometimes a gc column "
+        "besides, which must be ignored) / a gc column in the files / neither; do_gc, do_edge, do_rmask drawn so that at "
+        "least one correction is live, 30% with the flags that are on left to do_reference's defaults; every 5th with "
+        "one sample whose target bins are mostly at null coverage (its corrections are skipped); non-trivial = the "
+        "corrections changed some reference value")
 EXHAUSTIVE = {"quick": False, "thorough": False}
 ASSUMPTIONS = ["corrections off for the exact tie (with corrections on the rolling-median steps are C04's subject)",
                "sample sexes are a parameter of the model: given, or inferred by the real guess_xx (C15)",
                "values are taken as re-read from the written .cnn files (%.6g), so file I/O rounding is outside",
+               "corrections ON, exact tie (tag corr-*): third-party numerics enter as parameters computed by the same "
+               "library calls as in C04 -- numpy's seeded permutation (seed 0xA5EED), the rolling-median half window "
+               "_width2wing(0.1, n) -- and the key columns: gc / rmask fractions counted by the harness from the generated "
+               "genome, the gc column as re-read from the first file, the edge-bias keys as doubles from the real "
+               "get_edge_bias (checked against the model's exact formula to 1e-9); the sexes come from the model's "
+               "resolveSexes applied to the real guess_xx answer per file",
                "do_cluster: the per-cluster columns log2_i / spread_i are not modelled (k-means membership); checked are "
                "the pooled columns (unchanged, exact oracle), presence / pairing of the cluster columns and, for cohorts "
                "differing only in depth and sex, that every cluster reproduces the pooled profile with spread 0"]
-TRUSTED_EXTRA = ["tabio read/write of .cnn files (C08)", "numpy apply_along_axis / vstack / hstack plumbing"]
+TRUSTED_EXTRA = ["tabio read/write of .cnn files (C08)", "numpy apply_along_axis / vstack / hstack plumbing",
+                 "corrections on (tag corr-*): numpy.random.permutation (MT19937) under the fixed seed, pandas "
+                 "rolling(center=True).median, smoothing._width2wing -- as in C04; pyfaidx slicing of the generated genome"]
 
 
 def _bins(rng, style, anti, nx=45, sexchr=True, par=False):
@@ -247,6 +262,57 @@ def _cohort_on(rng, nth=0):
                    "gc_col": .5 <= u < .65}}
 
 
+def _cohort_corr(rng, j):
+    """round 4: a general cohort (noise, sex mix, depth scales, given / inferred sexes, with / without antitargets)
+    through do_reference with bias corrections ON, tied EXACTLY: the model composes C04's center_by_window into the
+    reference (Model/ReferenceExt.lean).  Cells in turn: genome FASTA (gc for both blocks, rmask for the
+    antitargets) twice / a gc column in the files / neither (only the edge correction has a key); the three do_*
+    flags drawn (at least one correction effective); every 5th cohort has one sample with most target bins at
+    null coverage (its corrections are skipped)."""
+    r = random.Random(rng.getrandbits(32))
+    while True:
+        c = _cohort(r, ideal=False)
+        i = c["in"]
+        if not i["nodepth"] and i["k"] >= 2:
+            break
+    i["cluster"] = None
+    i["api"] = {"tuple": False, "empty_list": False, "implicit": False, "shuffle_rows": None}
+    cell = j % 4
+    fasta = cell in (0, 1)
+    i["gc_col"] = cell == 2 or (cell == 0 and r.random() < .3)    # (a FASTA takes precedence over a gc column)
+    while True:
+        flags = {"do_gc": r.random() < .75, "do_edge": r.random() < .75, "do_rmask": r.random() < .75}
+        live = flags["do_edge"] or (flags["do_gc"] and (fasta or i["gc_col"])) or \
+            (flags["do_rmask"] and fasta and i["with_anti"] and not i["empty_anti"])
+        if live:
+            break
+    lowcov = j % 5 == 4
+    if lowcov:
+        rows = i["samples"][0]["t"]
+        for q in r.sample(range(len(rows)), (len(rows) * 3) // 5):
+            rows[q][4], rows[q][5] = -20.0, 0.0
+    i["corr"] = dict(flags, fasta_seed=r.getrandbits(30) if fasta else None, lowcov=lowcov,
+                     defaults=r.random() < .3)
+    c["tag"] = "corr-" + ("fasta" if fasta else "gccol" if i["gc_col"] else "edgeonly") + ("-lowcov" if lowcov else "")
+    if j % 3 == 1:
+        # through `cnvkit.py reference`: the --no-* flags are what switches a correction off
+        flags = [f for f, k in (("--no-gc", "do_gc"), ("--no-edge", "do_edge"), ("--no-rmask", "do_rmask")) if not flags_of(i)[k]]
+        r.shuffle(flags)
+        i["cli"] = True
+        i["cli_opts"] = {"form": r.choice(["t_a", "a_t", "mixed", "dir"]), "opts_first": r.random() < .5,
+                         "y": r.choice(["-y", "--male-reference", "--haploid-x-reference"]),
+                         "x": r.choice(["-x", "--sample-sex", "-g", "--gender"]),
+                         "sex_f": r.choice(["Female", "f", "x", "female"]), "sex_m": r.choice(["Male", "m", "y", "male"]),
+                         "o": r.choice(["-o", "--output"]), "long_flat": False, "flags": flags, "fasta": False,
+                         "fasta_seed": 0, "c": "-c"}
+        c["tag"] = "cli-" + c["tag"]
+    return c
+
+
+def flags_of(i):
+    return i["corr"]
+
+
 def gen_cases(rng, tier):
     n = {"quick": 64, "thorough": 240, "search": 100}[tier]
     # every 8th cohort is malformed, the five kinds in turn
@@ -272,6 +338,9 @@ def gen_cases(rng, tier):
                              "y": rng.choice(["-y", "--male-reference", "--haploid-x-reference"]),
                              "f": rng.choice(["-f", "--fasta"])}})
     _mark_cli(cases, random.Random(rng.getrandbits(32)))
+    # round 4 (own stream, drawn last: everything above stays as it was): corrections ON, exact tie
+    r4 = random.Random(rng.getrandbits(32))
+    cases += [_cohort_corr(r4, j) for j in range({"quick": 20, "thorough": 80, "search": 30}[tier])]
     return cases
 
 
@@ -617,24 +686,58 @@ def run_impl(case):
         tfo = [tf[j] for j in i["order"]]
         afo = [af[j] for j in (i["order"] if cli else i.get("order_a") or i["order"]) if af[j]] if i["with_anti"] else None
         given = None if i["given"] is None else (i["given"] == "true")
-        # sexes as do_reference determines them (parameter of the model)
-        if given is None:
-            sexes = reference.infer_sexes(tfo, False, i["par"])
-            if afo:
-                for sid, a_is_xx in reference.infer_sexes(afo, False, i["par"]).items():
-                    t_is_xx = sexes.get(sid)
-                    if t_is_xx is None:
-                        sexes[sid] = a_is_xx
-                    elif t_is_xx != a_is_xx and a_is_xx is not None:
-                        sexes[sid] = a_is_xx
-        else:
-            sexes = {s["name"]: given for s in i["samples"]}
+        # what guess_xx answers for each file (C15's subject; a parameter of the model) -- which sex do_reference
+        # then takes each sample to have is decided by the model (resolveSexes)
+        from cnvlib.cmdutil import read_cna as _rc
+        from cnvlib import core as _core
+
+        def answers(files):
+            out = []
+            for f in files or []:
+                arr = _rc(f)
+                ans = arr.guess_xx(False, i["par"]) if len(arr) else None
+                out.append([_core.fbase(f), None if ans is None else bool(ans)])
+            return out
+        sex_inputs = {"given": given, "target_ids": [_core.fbase(f) for f in tfo],
+                      "t_inf": answers(tfo) if given is None else [], "a_inf": answers(afo) if given is None else []}
+        corr = i.get("corr")
+        corr_out = None
+        fa_corr = None
+        if corr:
+            from cnvlib import fix as _fix, smoothing as _sm, params as _params
+            seqs = None
+            if corr["fasta_seed"] is not None:
+                os.makedirs(os.path.join(d, "genome"))
+                fa_corr = os.path.join(d, "genome", "genome.fa")
+                seqs = _write_fasta(fa_corr, _need(i["samples"][0]["t"] + (i["samples"][0]["a"] if i["with_anti"] else [])),
+                                    corr["fasta_seed"])
+
+            def keys_of(files):
+                """key columns of the first file (in sample-name order) of a block, and numpy's parameters"""
+                if not files:
+                    return None
+                arr = _rc(sorted(files, key=_core.fbase)[0])
+                n = len(arr)
+                if n == 0:
+                    return {"fasta_gc": None, "fasta_rm": None, "file_gc": None, "edge": [], "perm": [], "wing": 1}
+                np.random.seed(0xA5EED)
+                perm = [int(x) for x in np.random.permutation(np.arange(n))]
+                wing = int(_sm._width2wing(0.1, np.zeros(n))) if n >= 2 else 1
+                coords = [(str(r.chromosome), int(r.start), int(r.end)) for r in arr.data.itertuples()]
+                gl = [_gc_lo(seqs[c][a:b]) for c, a, b in coords] if seqs is not None else None
+                return {"fasta_gc": [frac(float(g)) for g, _ in gl] if gl else None,
+                        "fasta_rm": [frac(float(m)) for _, m in gl] if gl else None,
+                        "file_gc": [frac(float(x)) for x in arr["gc"].values] if "gc" in arr else None,
+                        "edge": [frac(float(x)) for x in _fix.get_edge_bias(arr, _params.INSERT_SIZE).values],
+                        "perm": perm, "wing": wing}
+            corr_out = {"do_gc": corr["do_gc"], "do_edge": corr["do_edge"], "do_rmask": corr["do_rmask"],
+                        "t": keys_of(tfo), "a": keys_of(afo)}
         import contextlib
         import io
         quiet = contextlib.redirect_stdout(io.StringIO()) if i.get("cluster") else contextlib.nullcontext()   # (k-means prints)
         if cli:
-            fa = None
-            if cli["fasta"]:
+            fa = fa_corr
+            if cli["fasta"] and not corr:
                 # with a genome the GC / RepeatMasker corrections have something to work on: --no-gc / --no-rmask
                 # (always given in these cases) are then what keeps the result equal to the corrections-off model
                 need = {}
@@ -652,6 +755,10 @@ def run_impl(case):
             if afo is None and api.get("empty_list"):
                 afo = []
             kw = {"do_gc": False, "do_edge": False, "do_rmask": False}
+            if corr:
+                kw = {k: corr[k] for k in ("do_gc", "do_edge", "do_rmask")}
+                if corr.get("defaults"):
+                    kw = {k: v for k, v in kw.items() if not v}    # flags that are on are do_reference's defaults
             if i.get("cluster"):
                 kw.update(do_cluster=True, min_cluster_size=i["cluster"])
             if api.get("implicit"):
@@ -666,10 +773,12 @@ def run_impl(case):
                     ref = reference.do_reference(tfo, afo, **kw) if afo is not None else reference.do_reference(tfo, **kw)
             else:
                 with quiet:
-                    ref = reference.do_reference(tfo, afo, None, i["hapX"], i["par"], given, **kw)
+                    ref = reference.do_reference(tfo, afo, fa_corr, i["hapX"], i["par"], given, **kw)
         rows = [[str(r.chromosome), int(r.start), int(r.end), str(r.gene), frac(float(r.log2)), frac(float(r.depth)),
                  frac(float(r.spread))] for r in ref.data.itertuples()]
-        out = {"rows": rows, "sexes": [[k, bool(v)] for k, v in sexes.items()], "t": reread_t, "a": reread_a}
+        out = {"rows": rows, "sexes": [], "sex_inputs": sex_inputs, "t": reread_t, "a": reread_a}
+        if corr_out:
+            out["corr"] = corr_out
         if i.get("cluster"):
             # the per-cluster columns: present, one value per bin; for samples that differ only in depth and sex every
             # cluster reproduces the common profile with spread 0 as well
@@ -718,6 +827,10 @@ def to_line(case, impl):
                              "profile_a": [] if i["empty_anti"] else i.get("profile_a", [])}, "impl": impl["rows"]}
     if i["with_anti"]:
         line["in"]["antitargets"] = [{"name": n, "rows": rows} for n, rows in impl["a"].items()]
+    if impl.get("sex_inputs"):
+        line["in"]["sex_inputs"] = impl["sex_inputs"]
+    if impl.get("corr"):
+        line["in"]["corr"] = impl["corr"]
     return line
 
 
@@ -754,6 +867,8 @@ def judge(case, impl, resp):
             if i["ideal"] and i["k"] >= 2 and not cl["dev"] <= 1e-6:
                 spec.append("depth_only_normals_reproduced_in_every_cluster")
         knife = None
+        if case["in"].get("corr") and Fraction(resp.get("edge_dev", "0")) > Fraction(1, 10 ** 9):
+            dis.append("edge-bias keys of get_edge_bias deviate from the exact formula by " + str(float(Fraction(resp["edge_dev"]))))
         # With corrections off the property's first sentence DETERMINES the table (bins, log2 = biweight location and
         # spread = biweight midvariance of the centred, sex-shifted samples + pseudo-sample, with the sexes as given or
         # as the real code inferred them), and the model is that sentence (theorem
@@ -833,4 +948,6 @@ def nontrivial(case, impl, resp):
     i = case["in"]
     if case["op"] == "reference_on" and isinstance(impl, dict) and not impl.get("inferred_ok", True):
         return False
+    if case["op"] == "reference" and i.get("corr"):
+        return bool(resp.get("corr_effect"))      # the corrections changed some value of the reference
     return case["op"] not in ("reference",) or i["k"] >= 2
